@@ -705,8 +705,8 @@ func c05R6(c *Ctx) {
 			}
 		}
 	}
-	if nWhole < 4 {
-		c.unresolved(R, "whole Request stores", fmt.Sprintf("expected 4 (SetMsg, 3× ParseWire), found %d", nWhole))
+	if nWhole < 2 { // anti-vacuity only: SetMsg and at least one reset in ParseWire (today 1 + 3; refusals may share a body)
+		c.unresolved(R, "whole Request stores", fmt.Sprintf("expected at least 2 (SetMsg, ParseWire), found %d", nWhole))
 	}
 	// materialize
 	setEdns0 := c.fobj(R, "internal/dnsutil.SetEdns0")
